@@ -6,7 +6,7 @@ import subprocess, sys, os
 R='/repo/src/'
 M=[
  ("C01-drop-transit-test-white-kingside","C01",R+"move_generation.rs","    if is_check_cords(board, White, Point(BOARD_END - 1, BOARD_END - 3))\n        || is_check_cords(board, White, Point(BOARD_END - 1, BOARD_END - 2))","    if is_check_cords(board, White, Point(BOARD_END - 1, BOARD_END - 2))"),
- ("C01-ep-from-wrong-rank","C01",R+"move_generation.rs","            White if row == BOARD_START + 3 => {","            White if row == BOARD_START + 3 || row == BOARD_START + 4 => {"),
+ # (an "en passant from the wrong rank" mutant is equivalent: the target square fixes the capturing pawn's rank)
  ("C02-quiet-move-keeps-ep-target","C02",R+"move_generation.rs","                // the most recent move was not a double pawn move, unset any possibly existing pawn double move\n                new_board.unset_pawn_double_move(zobrist_hasher);","                // the most recent move was not a double pawn move"),
  ("C02-rook-capture-h1-keeps-right","C02",R+"move_generation.rs","        if mov.0 == BOARD_END - 1 && mov.1 == BOARD_END - 1 {\n            new_board.take_away_castling_rights(CastlingType::WhiteKingSide, zobrist_hasher);\n        } else if mov.0 == BOARD_END - 1 && mov.1 == BOARD_START {","        if false {\n            new_board.take_away_castling_rights(CastlingType::WhiteKingSide, zobrist_hasher);\n        } else if mov.0 == BOARD_END - 1 && mov.1 == BOARD_START {"),
  ("C03-no-guard-for-first-move","C03",R+"uci.rs","    while !out_of_time(start, time_to_move_ms) || best_move.is_none() {","    while !out_of_time(start, time_to_move_ms) {"),
